@@ -31,8 +31,9 @@ struct Src {
 }
 impl<'de> Deserializer<'de> for &mut Src {
     type Error = DeError;
-    fn deserialize_any<V: Visitor<'de>>(self, v: V) -> Result<V::Value, DeError> {
-        v.visit_map(self)
+    fn deserialize_any<V: Visitor<'de>>(self, _v: V) -> Result<V::Value, DeError> {
+        // like the compact binary formats, this input is not self-describing
+        Err(DeError::custom("this format is not self-describing: deserialize_any is not supported"))
     }
     fn deserialize_map<V: Visitor<'de>>(self, v: V) -> Result<V::Value, DeError> {
         v.visit_map(self)
